@@ -178,11 +178,46 @@ func c17Refusal(r *core.Report) {
 		}
 		info := f.Pkg.TypesInfo
 		g := p.Graph(f)
-		// access nodes: calls to getRangeFromCache / miss(), map stores
+		recv := types.Object(f.RecvObj())
+		onRecvField := func(e ast.Expr, field string) bool {
+			sel, ok := core.Unparen(e).(*ast.SelectorExpr)
+			return ok && sel.Sel.Name == field && recv != nil && core.ObjOf(info, sel.X) == recv
+		}
+		// access nodes: calls of getRangeFromCache / of the miss callback, uses of the cache map, taking the lock
 		var accesses []*core.GNode
 		for _, nd := range stmtNodes(g) {
-			s := core.ExprStr(nd.Ast)
-			if strings.Contains(s, "getRangeFromCache(") || strings.Contains(s, "miss()") || strings.Contains(s, "rc.cache[") || strings.Contains(s, "range rc.cache") || strings.Contains(s, "rc.mu.Lock") {
+			acc := false
+			ast.Inspect(nd.Ast, func(m ast.Node) bool {
+				switch x := m.(type) {
+				case *ast.FuncLit:
+					return false
+				case *ast.CallExpr:
+					if strings.HasSuffix(core.CalleeName(info, x), ".getRangeFromCache") {
+						acc = true
+					}
+					if v, isV := core.ObjOf(info, x.Fun).(*types.Var); isV && !v.IsField() {
+						if _, isSig := v.Type().Underlying().(*types.Signature); isSig {
+							acc = true // the miss callback
+						}
+					}
+					if sel, ok := core.Unparen(x.Fun).(*ast.SelectorExpr); ok && (sel.Sel.Name == "Lock" || sel.Sel.Name == "RLock") && onRecvField(sel.X, "mu") {
+						acc = true
+					}
+				case *ast.IndexExpr:
+					if onRecvField(x.X, "cache") {
+						acc = true
+					}
+				case *ast.RangeStmt:
+					if onRecvField(x.X, "cache") {
+						acc = true
+					}
+				}
+				return true
+			})
+			if rs, ok := nd.Ast.(*ast.RangeStmt); ok && onRecvField(rs.X, "cache") {
+				acc = true
+			}
+			if acc {
 				accesses = append(accesses, nd)
 			}
 		}
@@ -190,20 +225,111 @@ func c17Refusal(r *core.Report) {
 			r.Undecided(rule, f.Key+"#accesses", posP(r, f.Pos()), "no cache access found")
 			continue
 		}
+		// the end of the requested range: the second element of the Range{start, end} values built here, or what is passed
+		// as `end` to getRangeFromCache
+		ends := map[types.Object]bool{}
+		ranges := map[types.Object]bool{} // locals holding such a Range value
+		ast.Inspect(f.Body, func(m ast.Node) bool {
+			switch x := m.(type) {
+			case *ast.CompositeLit:
+				if strings.HasSuffix(core.NamedTypeName(info.TypeOf(x)), ".Range") && len(x.Elts) == 2 {
+					if o := core.ObjOf(info, x.Elts[1]); o != nil {
+						ends[o] = true
+					}
+				}
+			case *ast.CallExpr:
+				if strings.HasSuffix(core.CalleeName(info, x), ".getRangeFromCache") && len(x.Args) == 3 {
+					if o := core.ObjOf(info, x.Args[2]); o != nil {
+						ends[o] = true
+					}
+				}
+			}
+			return true
+		})
+		ast.Inspect(f.Body, func(m ast.Node) bool {
+			if as, ok := m.(*ast.AssignStmt); ok && len(as.Lhs) == len(as.Rhs) {
+				for i, rhs := range as.Rhs {
+					if cl, ok := core.Unparen(rhs).(*ast.CompositeLit); ok && strings.HasSuffix(core.NamedTypeName(info.TypeOf(cl)), ".Range") && len(cl.Elts) == 2 && ends[core.ObjOf(info, cl.Elts[1])] {
+						if o := core.ObjOf(info, as.Lhs[i]); o != nil {
+							ranges[o] = true
+						}
+					}
+				}
+			}
+			return true
+		})
+		isEnd := func(e ast.Expr) bool { o := core.ObjOf(info, e); return o != nil && ends[o] }
+		isSize := func(e ast.Expr) bool { return onRecvField(e, "size") }
+		// a helper `func (r Range) valid(size) bool { return ... && r[1] <= size && ... }` called with the file size
+		boundsEndBySize := func(c *ast.CallExpr) bool {
+			fo := core.Callee(info, c)
+			if fo == nil {
+				return false
+			}
+			h := p.ByObj[fo.Origin()]
+			if h == nil || h.Body == nil || h.RecvObj() == nil || len(c.Args) != 1 || !isSize(c.Args[0]) || len(h.Body.List) != 1 {
+				return false
+			}
+			sel, ok := core.Unparen(c.Fun).(*ast.SelectorExpr)
+			if !ok {
+				return false
+			}
+			// the receiver is a Range built with the end
+			onRange := false
+			if o := core.ObjOf(info, sel.X); o != nil && ranges[o] {
+				onRange = true
+			}
+			if cl, ok := core.Unparen(sel.X).(*ast.CompositeLit); ok && len(cl.Elts) == 2 && isEnd(cl.Elts[1]) {
+				onRange = true
+			}
+			rs, isRet := h.Body.List[0].(*ast.ReturnStmt)
+			if !onRange || !isRet || len(rs.Results) != 1 {
+				return false
+			}
+			hi := h.Pkg.TypesInfo
+			for _, cj := range conjuncts(rs.Results[0]) {
+				be, ok := core.Unparen(cj).(*ast.BinaryExpr)
+				if !ok {
+					continue
+				}
+				l, rr, op := be.X, be.Y, be.Op
+				if op == token.GEQ || op == token.GTR {
+					l, rr = rr, l
+					op = map[token.Token]token.Token{token.GEQ: token.LEQ, token.GTR: token.LSS}[op]
+				}
+				if op != token.LEQ && op != token.LSS {
+					continue
+				}
+				ix, isIx := core.Unparen(l).(*ast.IndexExpr)
+				if !isIx || core.ObjOf(hi, ix.X) != types.Object(h.RecvObj()) {
+					continue
+				}
+				if v, isC := core.ConstInt(hi, ix.Index); isC && v == 1 && h.ParamObj(0) != nil && core.ObjOf(hi, rr) == types.Object(h.ParamObj(0)) {
+					return true
+				}
+			}
+			return false
+		}
 		// the end of the range must be compared with the file size: an atomic fact `end > rc.size` false (or equivalent)
 		endVsSize := func(n *core.GNode) bool {
 			for _, fc := range g.FactsAt(n) {
-				be, ok := core.Unparen(fc.Expr).(*ast.BinaryExpr)
-				if !ok || fc.Tag != nil {
+				if fc.Tag != nil {
 					continue
 				}
-				x, y := core.ExprStr(be.X), core.ExprStr(be.Y)
+				if c, ok := core.Unparen(fc.Expr).(*ast.CallExpr); ok && fc.Truth && boundsEndBySize(c) {
+					return true
+				}
+				be, ok := core.Unparen(fc.Expr).(*ast.BinaryExpr)
+				if !ok {
+					continue
+				}
+				x, y := be.X, be.Y
 				op := be.Op
-				if y == "end" && strings.HasSuffix(x, ".size") {
+				if isEnd(y) && isSize(x) {
 					x, y = y, x
 					op = map[token.Token]token.Token{token.LSS: token.GTR, token.GTR: token.LSS, token.LEQ: token.GEQ, token.GEQ: token.LEQ}[op]
 				}
-				if x != "end" || !strings.HasSuffix(y, ".size") {
+				if !isEnd(x) || !isSize(y) {
 					continue
 				}
 				if (op == token.GTR && !fc.Truth) || (op == token.LEQ && fc.Truth) || (op == token.LSS && fc.Truth) || (op == token.GEQ && !fc.Truth) {
@@ -237,7 +363,7 @@ func c17Refusal(r *core.Report) {
 			ok := false
 			for _, fc := range g.FactsAt(rn) {
 				be, isBin := core.Unparen(fc.Expr).(*ast.BinaryExpr)
-				if isBin && fc.Tag == nil && strings.Contains(core.ExprStr(fc.Expr), "len(p)") && ((be.Op == token.LSS && !fc.Truth) || (be.Op == token.GEQ && fc.Truth) || (be.Op == token.EQL && fc.Truth) || (be.Op == token.NEQ && !fc.Truth)) {
+				if isBin && fc.Tag == nil && mentionsLenOf(info, fc.Expr, f.ParamObj(0)) && ((be.Op == token.LSS && !fc.Truth) || (be.Op == token.GEQ && fc.Truth) || (be.Op == token.EQL && fc.Truth) || (be.Op == token.NEQ && !fc.Truth)) {
 					ok = true
 				}
 			}
@@ -346,7 +472,7 @@ func c17RemoteReadComplete(r *core.Report) {
 					bad = p.Rel(u.Ast.Pos())
 				}
 			}
-			r.Check(bad == "", rule, fmt.Sprintf("%s#%s(%s)", f.Key, rc.Kind, core.ExprStr(rc.Buf)), pos(r, rc.Call), "success / use of the buffer only when the read is known complete",
+			r.Check(bad == "", rule, fmt.Sprintf("%s#%s(%s)", f.Key, rc.Kind, core.KeyStr(f, rc.Buf)), pos(r, rc.Call), "success / use of the buffer only when the read is known complete",
 				"success is returned (or the buffer used) at "+bad+" although the read may have been short: a truncated HTTP body is handed on - and cached - padded with zeros")
 		}
 	}
@@ -453,4 +579,16 @@ func c17EntryLengthInvariant(r *core.Report) {
 	if n == 0 {
 		r.Undecided(rule, "range-cache#cache-store", "", "no store into the range cache found")
 	}
+}
+
+// mentionsLenOf: the expression contains len(<o>).
+func mentionsLenOf(info *types.Info, e ast.Expr, o types.Object) bool {
+	found := false
+	ast.Inspect(e, func(m ast.Node) bool {
+		if c, ok := m.(*ast.CallExpr); ok && core.BuiltinName(info, c) == "len" && len(c.Args) == 1 && o != nil && core.ObjOf(info, c.Args[0]) == o {
+			found = true
+		}
+		return true
+	})
+	return found
 }
